@@ -73,9 +73,9 @@ func c10Props() core.StepProps {
 }
 
 type c10Case struct {
-	Seq   []string `json:"seq"`   // program names, executed in order on fresh copies of the same inputs
-	Via   string   `json:"via"`   // exec | walk
-	Share bool     `json:"share"` // the caller hands the same bindings/props objects to every execution
+	Seq   []string `json:"seq"`             // program names, executed in order on fresh copies of the same inputs
+	Via   string   `json:"via"`             // exec | walk
+	Share bool     `json:"share"`           // the caller hands the same bindings/props objects to every execution
 	Props string   `json:"props,omitempty"` // "" populated | nil | empty : the step properties the caller supplies
 }
 
